@@ -54,6 +54,7 @@ func Literal(p *packages.Package, name string) (*Table, error) {
 								t.Values = append(t.Values, nil)
 							}
 						} else {
+							t.Keys = append(t.Keys, nil)
 							t.Values = append(t.Values, p.TypesInfo.Types[e].Value)
 						}
 					}
@@ -72,4 +73,25 @@ func Const(p *packages.Package, name string) constant.Value {
 		return c.Val()
 	}
 	return nil
+}
+
+// SliceValues resolves the element values of an array/slice literal by index (keyed elements honoured).
+func (t *Table) SliceValues() ([]constant.Value, error) {
+	var out []constant.Value
+	next := int64(0)
+	for i, v := range t.Values {
+		if t.Keys[i] != nil {
+			k, ok := constant.Int64Val(t.Keys[i])
+			if !ok || k < 0 || k > 1<<16 {
+				return nil, fmt.Errorf("non-integer key in slice literal %s", t.Name)
+			}
+			next = k
+		}
+		for int64(len(out)) <= next {
+			out = append(out, nil)
+		}
+		out[next] = v
+		next++
+	}
+	return out, nil
 }
